@@ -728,4 +728,43 @@ theorem powmE1_correct (bneg : Bool) (bp mp : List Nat) (hb : Norm bp) (hbne : b
       · rw [List.take_left' rfl]
         rw [Int.emod_eq_of_lt (Int.natCast_nonneg _) (by exact_mod_cast hbm)]
 
+
+/-! ### mpz_powm: well-formedness on every path, and the paths that do not reach mpn_powm -/
+
+theorem powmMain_wf (bneg : Bool) (bp ep mp : List Nat) :
+    (Res.mk (powmMain bneg bp ep mp).1 (powmMain bneg bp ep mp).2).wf = true := by
+  unfold powmMain
+  simp only
+  split_ifs <;> exact wf_normalize _ _
+
+theorem natLimbs_length_eq_zero (v : Nat) : (natLimbs v).length = 0 ↔ v = 0 := by
+  rw [List.length_eq_zero_iff, natLimbs_eq_nil]
+
+/-- `n == 1 && mp[0] == 1` recognises `|m| = 1`. -/
+theorem natLimbs_is_one (v : Nat) :
+    ((natLimbs v).length != 1 || (natLimbs v).headD 0 != 1) = true ↔ v ≠ 1 := by
+  constructor
+  · intro h h1
+    subst h1
+    have : natLimbs 1 = [1] := by
+      rw [natLimbs_pos 1 (by decide)]
+      have : (1 : Nat) / B = 0 := by simp [B_eq]
+      rw [this, natLimbs_zero]; simp [B_eq]
+    rw [this] at h; simp at h
+  · intro h1
+    by_contra hc
+    simp only [Bool.or_eq_true, bne_iff_ne, ne_eq, not_or, Decidable.not_not] at hc
+    obtain ⟨hl, hh⟩ := hc
+    have hv := val_natLimbs v
+    match hm : natLimbs v, hl, hh with
+    | [x], _, hh =>
+      rw [hm] at hv
+      simp at hh hv
+      omega
+
+theorem modInv_zero (m : Nat) (hm : m ≠ 1) : modInv? 0 m = none := by
+  have h : xgcdAux 0 1 m 0 = (m, 0) := by rw [xgcdAux.eq_def]
+  unfold modInv?
+  simp [h, hm]
+
 end Mpir.Powm
